@@ -1,7 +1,6 @@
 import MxModel.Props.C01
 import MxModel.Props.C06
-import MxModel.Proofs.ExecCertTop
-import MxModel.Proofs.ExprCert
+import MxModel.Proofs.ExecCertRunOps
 /-!
 # C02 – no stale value survives any edit
 
@@ -27,7 +26,11 @@ or flag edit (`St.setFormula`), `clear_with_descs` for a value edit (`St.setValu
 `no_stale_after_value_edit` conclude `Good env' …` for the edited environment with **no**
 hypothesis about the survivors, from the certificate invariant `CI`, which every reachable
 state has (`reachable_ci`: evaluations – successful or failed –, value edits, reference edits,
-formula and flag edits, in any interleaving).  Hypotheses, all named and visible:
+formula and flag edits, cells deleted and created, in any interleaving).  Structural edits:
+`no_stale_after_batch_edit` (a SET of cells is redefined at once – formulas, flags, existence –
+and the clearing is the namespace notification, which keeps inputs), with its instances
+`no_stale_after_cell_delete` (`St.delCell`) and `no_stale_after_cell_create` (`St.newCell`); a call
+of a cells that does not exist fails in the caller (`Env.alive`, `evalNode`, `calleeAt`).  Hypotheses, all named and visible:
 `Ranked env lt` (terminating programs, the regime of C06/C08), `NoCatchEnv env` (no formula turns
 a failure into a value: known finding C02-caught-failure-untracked, `full_statement_fails_catch`
 below), `Scoped env` (static scoping: a by-name read is of a reference of the formula's own
@@ -150,36 +153,10 @@ example : CallsIn (fun n => n = (0, [.int 7])) (C08.gEnv.formula (0, [.int 7])) 
     | none => simp [CallsIn, ReadsIn]
     | some v => cases v <;> simp [CallsIn, ReadsIn]
 
-/-! ## Mechanism level: the clearing modelx performs discharges the obligation -/
+/-! ## Mechanism level: the clearing modelx performs discharges the obligation
 
-/-- the hypotheses on programs under which the certificate invariant is maintained -/
-structure WF (env : Env) (lt : Node → Node → Prop) : Prop where
-  ranked : Ranked env lt
-  noCatch : NoCatchEnv env
-  scoping : Scoped env
-
-def _root_.MxModel.Exec.Env.withRef (env : Env) (r : RefId) (x : Option Val) : Env :=
-  { env with refs := fun r' => if r' = r then x else env.refs r' }
-
-def _root_.MxModel.Exec.Env.withFormula (env : Env) (c : CellId) (f : Key → Prog) : Env :=
-  { env with formula := fun n => if n.1 = c then f n.2 else env.formula n }
-
-def _root_.MxModel.Exec.Env.withCached (env : Env) (c : CellId) (b : Bool) : Env :=
-  { env with cached := fun c' => if c' = c then b else env.cached c' }
-
-theorem refEdit_withRef (env : Env) (r : RefId) (x : Option Val) : RefEdit env (env.withRef r x) r :=
-  ⟨rfl, rfl, rfl, fun r' h => by simp [Env.withRef, h], rfl⟩
-
-theorem cellEdit_withFormula (env : Env) (c : CellId) (f : Key → Prog) :
-    CellEdit env (env.withFormula c f) c :=
-  ⟨fun n h => by simp [Env.withFormula, h], fun _ _ => rfl, fun _ _ => rfl, rfl, rfl⟩
-
-theorem cellEdit_withCached (env : Env) (c : CellId) (b : Bool) : CellEdit env (env.withCached c b) c :=
-  ⟨fun _ _ => rfl, fun c' h => by simp [Env.withCached, h], fun _ _ => rfl, rfl, rfl⟩
-
-/-- a reference edit changes none of the hypotheses on programs -/
-theorem wf_withRef {env : Env} {lt : Node → Node → Prop} (h : WF env lt) (r : RefId) (x : Option Val) :
-    WF (env.withRef r x) lt := ⟨h.ranked, h.noCatch, h.scoping⟩
+The regime `WF`, the environment updates, the operation language `Op` / `step` / `run` /
+`Admissible` and the class `tableEnv` are defined in `Proofs/ExecCertRunOps.lean`. -/
 
 /-- **T1** – a top-level evaluation (of an element of a cells that exists: a handle of a deleted
 cells raises `DeletedObjectError` before the executor is reached), successful or failed, keeps
@@ -235,85 +212,51 @@ theorem no_stale_after_clear (env : Env) (lt : Node → Node → Prop) (s : St) 
   have := clearValueAt_ci h n true
   ⟨this, this.good⟩
 
+/-! ### structural edits: the namespace of a set of cells changes -/
+
+/-- **T6 – a SET of cells is redefined at once, and the clearing is the namespace notification**
+(the batch generalisation of T4, whose clearing is `clear_obj`).  `env'` differs from `env` at the
+cells in `C` only – there arbitrarily: formula, cache flag, `allow_none`, existence (`BatchEdit`);
+modelx notifies the cells in `L` (`St.notifyAll`: `on_namespace_change` of each – a cached cells
+drops its computed values with everything computed from them and KEEPS its inputs; an uncached
+cells drops everything computed through it); every redefined cells is notified or has no node in
+the trace graph (`hC`: it was cleared by `clear_obj` just before, or did not exist).  Admissibility
+(`hinp`): a redefined cells that holds an input is still cached and still exists.  Then the
+invariant holds for the NEW definitions, so every value still held – the inputs and everything
+outside the notified cells that was not computed from them – is a denotation under them.
+(The regime `WF env' lt` is needed only by later evaluations, `eval_keeps_certificates`.) -/
+theorem no_stale_after_batch_edit (env env' : Env) (lt : Node → Node → Prop) (s : St) (h : CI env lt s)
+    (L : List CellId) (C : CellId → Prop) (hed : BatchEdit env env' C)
+    (hC : ∀ c, C c → c ∈ L ∨ ∀ x ∈ s.gn, x.cell ≠ c)
+    (hinp : ∀ n ∈ s.inputs, C n.1 → env'.cached n.1 = true ∧ env'.alive n.1 = true) :
+    CI env' lt (s.notifyAll env L) ∧ Good env' (inpOf (s.notifyAll env L)) (s.notifyAll env L) :=
+  have := batchEdit_ci L C h hed hC hinp
+  ⟨this, this.good⟩
+
+/-- **…a cells is deleted** (`del space.c`: `clear_obj(c)`, then the notification of the cells of
+`c`'s space).  `env'`: `c` is gone – and, in the generality the resolution layer needs, the cells
+of its space may have new formulas (their names resolve differently). -/
+theorem no_stale_after_cell_delete (env env' : Env) (lt : Node → Node → Prop) (s : St) (h : CI env lt s)
+    (c : CellId) (hed : BatchEdit env env' (fun c' => c' = c ∨ c' ∈ env.siblings c))
+    (hkeep : ∀ c' ∈ env.siblings c, c' ≠ c → env'.cached c' = env.cached c' ∧ env'.alive c' = env.alive c') :
+    CI env' lt (s.delCell env c) ∧ Good env' (inpOf (s.delCell env c)) (s.delCell env c) :=
+  have := delCell_ci h hed hkeep
+  ⟨this, this.good⟩
+
+/-- **…a cells is created** (`space.new_cells(…)`: the notification of the cells of the space). -/
+theorem no_stale_after_cell_create (env env' : Env) (lt : Node → Node → Prop) (s : St) (h : CI env lt s)
+    (c : CellId) (hdead : env.alive c = false)
+    (hed : BatchEdit env env' (fun c' => c' = c ∨ c' ∈ env.siblings c))
+    (hkeep : ∀ c' ∈ env.siblings c, c' ≠ c → env'.cached c' = env.cached c' ∧ env'.alive c' = env.alive c') :
+    CI env' lt (s.newCell env c) ∧ Good env' (inpOf (s.newCell env c)) (s.newCell env c) :=
+  have := newCell_ci h hdead hed hkeep
+  ⟨this, this.good⟩
+
 /-! ### every reachable state -/
-
-inductive Op
-  | eval (n : Node)
-  | setValue (n : Node) (v : Val)
-  | clearAt (n : Node)
-  | clear (c : CellId)
-  | clearAll (c : CellId)
-  | setRef (r : RefId) (v : Val)
-  | delRef (r : RefId)
-  | setFormula (c : CellId) (f : Key → Prog)
-  | setCached (c : CellId) (b : Bool)
-
-/-- one operation on the definitions and the mechanism state, in modelx's order: the clearing
-happens while the old definitions are in force, then the definition changes -/
-def step : Env × St → Op → Env × St
-  | (env, s), .eval n => (env, if env.alive n.1 then (evalTop env n s).2 else s)
-  | (env, s), .setValue n v => (env, if env.cached n.1 && env.alive n.1 then (s.setValue env n v).1 else s)
-  | (env, s), .clearAt n => (env, s.clearValueAt n true)
-  | (env, s), .clear c => (env, s.clearAllValues c false)
-  | (env, s), .clearAll c => (env, s.clearAllValues c true)
-  | (env, s), .setRef r v => (env.withRef r (some v), s.setRef env r)
-  | (env, s), .delRef r => if (env.refs r).isSome then (env.withRef r none, s.delRef env r) else (env, s)
-  | (env, s), .setFormula c f => (env.withFormula c f, s.setFormula c)
-  | (env, s), .setCached c b => if env.cached c = b then (env, s) else (env.withCached c b, s.setFormula c)
-
-def run (st : Env × St) (ops : List Op) : Env × St := ops.foldl step st
-
-/-- the definitions stay within the regime after every operation (automatic for everything
-except formula and flag edits, `wf_withRef`) -/
-def Admissible (lt : Node → Node → Prop) : Env × St → List Op → Prop
-  | _, [] => True
-  | st, op :: ops => WF (step st op).1 lt ∧ Admissible lt (step st op) ops
-
-theorem step_ci (lt : Node → Node → Prop) (ho : StrictOrder lt) (st : Env × St) (op : Op)
-    (hw : WF st.1 lt) (h : CI st.1 lt st.2) : CI (step st op).1 lt (step st op).2 := by
-  obtain ⟨env, s⟩ := st
-  cases op with
-  | eval n =>
-    simp only [step]
-    split
-    · rename_i hn; exact eval_keeps_certificates env lt ho hw s n hn h
-    · exact h
-  | setValue n v =>
-    simp only [step]
-    split
-    · rename_i hc
-      simp only [Bool.and_eq_true] at hc
-      exact setValue_ci h n v hc.1 hc.2
-    · exact h
-  | clearAt n => exact clearValueAt_ci h n true
-  | clear c => exact clearAllValues_ci h c false
-  | clearAll c => exact clearAllValues_ci h c true
-  | setRef r v => exact (no_stale_after_ref_edit env lt hw s h r v).1
-  | delRef r =>
-    simp only [step]
-    split
-    · rename_i hex; exact (no_stale_after_ref_delete env lt hw s h r hex).1
-    · exact h
-  | setFormula c f => exact setFormula_ci h (cellEdit_withFormula env c f)
-  | setCached c b =>
-    simp only [step]
-    split
-    · exact h
-    · exact setFormula_ci h (cellEdit_withCached env c b)
-
-theorem run_ci (lt : Node → Node → Prop) (ho : StrictOrder lt) : ∀ (ops : List Op) (st : Env × St),
-    WF st.1 lt → CI st.1 lt st.2 → Admissible lt st ops →
-    CI (run st ops).1 lt (run st ops).2 ∧ WF (run st ops).1 lt := by
-  intro ops
-  induction ops with
-  | nil => intro st hw h _; exact ⟨h, hw⟩
-  | cons op rest ih =>
-    intro st hw h hadm
-    exact ih (step st op) hadm.1 (step_ci lt ho st op hw h) hadm.2
 
 /-- **Every reachable quiescent state has the certificate invariant**: after any finite
 interleaving of evaluations (successful, failed), value edits, reference edits (change, create,
-delete) and formula / flag edits, starting from the empty model. -/
+delete), formula / flag edits and deletions / creations of cells, starting from the empty model. -/
 theorem reachable_ci (lt : Node → Node → Prop) (ho : StrictOrder lt) (env0 : Env) (hw0 : WF env0 lt)
     (ops : List Op) (hadm : Admissible lt (env0, {}) ops) :
     CI (run (env0, {}) ops).1 lt (run (env0, {}) ops).2 ∧ WF (run (env0, {}) ops).1 lt :=
@@ -337,61 +280,16 @@ theorem later_answers_equal_fresh_model_partial (env' : Env) (lt : Node → Node
     (hv : (evalTop env' n s').1 = .ok v) (hw : (evalTop env' n sF).1 = .ok w) : v = w :=
   C01.order_independent env' (inpOf s') n s' sF h.good hF h0 h0F hend hendF v w hv hw
 
-/-! ### a syntactic class of programs in the regime, and non-vacuity
-
-Environments built from a table of `try`-free bodies in which cells `i` calls cells `< i` only,
-with the space of every cells and reference given (exactly what `Driver.Exec.World.env` builds
-from the harness' program description), are `WF`. -/
-
-def tableEnv (cells : CellId → Option Expr) (ar : CellId → Option Nat) (ids : List CellId)
-    (cached allowNone : CellId → Bool) (cspace : CellId → Nat) (rspace : RefId → Nat)
-    (refs : RefId → Option Val) (maxdepth : Nat) : Env where
-  formula := fun n => match cells n.1 with
-    | some e => formulaOf ar (scopeExpr (fun r => rspace r == cspace n.1) e) n.2
-    | none => .raise (.user kName)
-  cached := cached
-  allowNone := allowNone
-  refs := refs
-  maxdepth := maxdepth
-  observers := fun r => ids.filter (fun c => cspace c == rspace r)
-
+/-- **a syntactic class in the regime** (`tableEnv`, `Proofs/ExecCertRunOps.lean`): bodies without a
+handler that returns a value (`noCatch`; contains the `try`-free bodies, `noCatch_of_noTry`), cells
+`i` calls cells `< i`, any placement in spaces, any set of missing cells. -/
 theorem tableEnv_wf (cells : CellId → Option Expr) (ar : CellId → Option Nat) (ids : List CellId)
     (cached allowNone : CellId → Bool) (cspace : CellId → Nat) (rspace : RefId → Nat)
-    (refs : RefId → Option Val) (maxdepth : Nat)
+    (refs : RefId → Option Val) (maxdepth : Nat) (dead : CellId → CellId → Option Bool) (alive : CellId → Bool)
     (hids : ∀ i e, cells i = some e → i ∈ ids)
-    (hbody : ∀ i e, cells i = some e → noTry e = true ∧ callsBelowId i e = true) :
-    WF (tableEnv cells ar ids cached allowNone cspace rspace refs maxdepth) idLt := by
-  refine ⟨?_, ?_, ?_⟩
-  · refine ranked_of_table (fun i => (cells i).map (scopeExpr (fun r => rspace r == cspace i))) ar _ ?_ ?_
-    · intro n
-      simp only [tableEnv]
-      cases cells n.1 <;> rfl
-    · intro i e h
-      cases hc : cells i with
-      | none => simp [hc] at h
-      | some e0 =>
-        simp only [hc, Option.map_some, Option.some.injEq] at h
-        subst h
-        rw [(scope_facts _ i e0).2.2]; exact (hbody i e0 hc).2
-  · intro n
-    simp only [tableEnv]
-    cases hc : cells n.1 with
-    | none => trivial
-    | some e =>
-      exact (formulaOf_pw (fun _ => True) (fun r => rspace r == cspace n.1) (fun _ _ => trivial) ar _ n.2
-        (by rw [(scope_facts _ n.1 e).2.1]; exact (hbody n.1 e hc).1) (scope_facts _ n.1 e).1).1
-  · intro n
-    simp only [tableEnv]
-    cases hc : cells n.1 with
-    | none => trivial
-    | some e =>
-      refine (formulaOf_pw _ (fun r => rspace r == cspace n.1) ?_ ar _ n.2
-        (by rw [(scope_facts _ n.1 e).2.1]; exact (hbody n.1 e hc).1) (scope_facts _ n.1 e).1).2
-      intro r hr
-      simp only [List.mem_filter]
-      refine ⟨hids n.1 e hc, ?_⟩
-      rw [beq_iff_eq] at hr ⊢
-      exact hr.symm
+    (hbody : ∀ i e, cells i = some e → noCatch e = true ∧ callsBelowId i e = true) :
+    WF (tableEnv cells ar ids cached allowNone cspace rspace refs maxdepth dead alive) idLt :=
+  tableEnv_wf_aux cells ar ids cached allowNone cspace rspace refs maxdepth dead alive hids hbody
 
 /-! Non-vacuity.  Space 0 holds `c0(x) = x + r0` (reference `r0` of space 0, by name), the
 uncached `c1(x) = c0(x) + r1` (`r1` lives in space 1: attribute path) and `c3() = c2(1) + r0`
@@ -414,7 +312,7 @@ def xEnv : Env :=
     (fun r => if r = 0 then some (.int 10) else if r = 1 then some (.int 2) else none) 50
 
 theorem xEnv_wf : WF xEnv idLt :=
-  tableEnv_wf _ _ _ _ _ _ _ _ _
+  tableEnv_wf _ _ _ _ _ _ _ _ _ _ _
     (by intro i e h
         match i, h with
         | 0, _ => simp
@@ -434,7 +332,8 @@ def xOps : List Op :=
 
 /-- the history is admissible: it contains no formula edit, so the regime is kept throughout -/
 theorem xOps_admissible : ∀ (ops : List Op) (st : Env × St), WF st.1 idLt →
-    (∀ op ∈ ops, match op with | .setFormula _ _ => False | .setCached _ _ => False | _ => True) →
+    (∀ op ∈ ops, match op with
+      | .setFormula _ _ => False | .setCached _ _ => False | .newCell _ _ _ _ => False | _ => True) →
     Admissible idLt st ops := by
   intro ops
   induction ops with
@@ -458,6 +357,12 @@ theorem xOps_admissible : ∀ (ops : List Op) (st : Env × St), WF st.1 idLt →
         · exact hw
       | setFormula c f => exact this.elim
       | setCached c b => exact this.elim
+      | delCell c =>
+        simp only [step]
+        split
+        · exact wf_withAlive hw c false
+        · exact hw
+      | newCell c f b an => exact this.elim
     exact ⟨hstep, ih _ hstep (fun op' h' => hall op' (by simp [h']))⟩
 
 example : CI (run (xEnv, {}) xOps).1 idLt (run (xEnv, {}) xOps).2 :=
@@ -480,6 +385,34 @@ inside the uncached `c1` had been recorded for `c2(1)`, the nearest cached calle
 example : ((run (xEnv, {}) (xOps.take 3)).2.data.map (·.1)) = [(0, [.int 5]), (0, [.int 1])] ∧
     (run (xEnv, {}) (xOps.take 2)).2.rg = [(1, (2, [.int 1])), (0, (3, []))] ∧
     (run (xEnv, {}) (xOps.take 3)).2.rg = [] := by
+  decide
+
+/-! Non-vacuity for cells deleted and created.  In the same program: `c3()` and `c0(5)` are
+evaluated, `c0(9)` is assigned; `c0` is deleted - nothing is held any more (the elements of `c0`,
+input included, and everything computed from them through the uncached `c1` in the other space),
+`c3()` now fails with the error of an unbound name; `c0` is created again as the constant 1 and
+`c3()` is `((1 + r1) * r1) + r0 = 16`.  The history is admissible and the invariant holds. -/
+def yOps : List Op :=
+  [.eval (3, []), .eval (0, [.int 5]), .setValue (0, [.int 9]) (.int 100), .delCell 0, .eval (3, []),
+   .newCell 0 (fun _ => .ret (.int 1)) true false, .eval (3, [])]
+
+theorem yOps_admissible : Admissible idLt (xEnv, {}) yOps := by
+  have w0 := xEnv_wf
+  have w1 : WF (xEnv.withAlive 0 false) idLt := wf_withAlive w0 0 false
+  have w2 : WF ((xEnv.withAlive 0 false).withCell 0 (fun _ => .ret (.int 1)) true false) idLt :=
+    wf_withCell w1 0 _ true false (fun _ => ⟨trivial, trivial, trivial⟩)
+  exact ⟨w0, w0, w0, w1, w1, w2, w2, trivial⟩
+
+example : CI (run (xEnv, {}) yOps).1 idLt (run (xEnv, {}) yOps).2 :=
+  (reachable_ci idLt idLt_strict xEnv xEnv_wf yOps yOps_admissible).1
+
+example : ((run (xEnv, {}) (yOps.take 3)).2.data.map (·.1)) =
+      [(0, [.int 9]), (0, [.int 5]), (3, []), (2, [.int 1]), (0, [.int 1])] ∧
+    (run (xEnv, {}) (yOps.take 4)).2.data = [] ∧ (run (xEnv, {}) (yOps.take 4)).2.gn = [] ∧
+    (run (xEnv, {}) (yOps.take 4)).2.rg = [] ∧
+    (evalTop (run (xEnv, {}) (yOps.take 4)).1 (3, []) (run (xEnv, {}) (yOps.take 4)).2).1 =
+      .formulaError errDead [(3, []), (2, [.int 1]), (1, [.int 1])] ∧
+    (evalTop (run (xEnv, {}) (yOps.take 6)).1 (3, []) (run (xEnv, {}) (yOps.take 6)).2).1 = .ok (.int 16) := by
   decide
 
 /-! ### the hypothesis `NoCatchEnv` is needed
@@ -518,6 +451,47 @@ theorem full_statement_fails_catch :
     have hinp : inpOf ((evalTop cEnv (1, []) {}).2.setRef cEnv 0) = fun _ => none := by
       funext n
       have : ((evalTop cEnv (1, []) {}).2.setRef cEnv 0).inputs = [] := by decide
+      simp [inpOf, this]
+    rw [hinp]
+    exact ⟨3, by decide⟩
+  have := Den_det _ _ _ _ _ this hspec
+  cases this
+
+/-! …also for the creation of a cells.  `c1() = try: S.c0() except: -1` lives in another space than
+the cells `c0` it calls through an attribute path; `c0` does not exist.  `c1` holds `-1`; after `c0`
+is created (as the constant 5) the namespace that changed is the one of `c0`'s space – `c1` is not
+notified, and no edge records the failed call: the live model still answers `-1`, a model that saw
+only the edits answers `5`.  (Replayed on modelx: `notes/EDIT-repro_caught_missing_cells.py`; a
+variant of known finding C02-caught-failure-untracked.  A caller in `c0`'s OWN space is cleared by
+the notification – that is what the notification is for.) -/
+def dCells : CellId → Option Expr
+  | 0 => some (.lit 5)
+  | 1 => some (.try_ (.call 0 []) .all (.lit (-1)))
+  | _ => none
+
+def dEnv : Env :=
+  tableEnv dCells cAr [0, 1] (fun _ => true) (fun _ => false) (fun c => if c = 1 then 1 else 0) (fun _ => 0)
+    (fun _ => none) 50 (fun i c => if c = 0 then some (i == 1) else none) (fun c => c != 0)
+
+theorem cell_create_fails_catch :
+    ¬ (∀ (env : Env) (s : St) (c : CellId) (f : Key → Prog) (b an : Bool), Good env (inpOf s) s →
+        env.alive c = false →
+        Good (env.withCell c f b an) (inpOf (s.newCell env c)) (s.newCell env c)) := by
+  intro h
+  have hgood : Good dEnv (inpOf (evalTop dEnv (1, []) {}).2) (evalTop dEnv (1, []) {}).2 := by
+    have hg0 : Good dEnv (fun _ => none) {} := ⟨by intro n v _ hl; simp at hl, by intro n v _ hi; cases hi⟩
+    have hinp : inpOf (evalTop dEnv (1, []) {}).2 = fun _ => none := by
+      funext n
+      have : (evalTop dEnv (1, []) {}).2.inputs = [] := by decide
+      simp [inpOf, this]
+    rw [hinp]
+    exact (C01.eval_value_is_denotation_partial dEnv (fun _ => none) (1, []) {} hg0 rfl (by decide)).2.2
+  have := (h dEnv _ 0 (fun _ => .ret (.int 5)) true false hgood rfl).sound (1, []) (.int (-1)) rfl (by decide)
+  have hspec : Den (dEnv.withCell 0 (fun _ => .ret (.int 5)) true false)
+      (inpOf ((evalTop dEnv (1, []) {}).2.newCell dEnv 0)) (1, []) (.ok (.int 5)) := by
+    have hinp : inpOf ((evalTop dEnv (1, []) {}).2.newCell dEnv 0) = fun _ => none := by
+      funext n
+      have : ((evalTop dEnv (1, []) {}).2.newCell dEnv 0).inputs = [] := by decide
       simp [inpOf, this]
     rw [hinp]
     exact ⟨3, by decide⟩
